@@ -742,6 +742,7 @@ impl<'s> Tokenizer<'s> {
                 let mut result = &self.rest()[..end];
                 self.advance(end);
                 let span = self.span(old_loc);
+                let endraw_offset = self.current_offset;
                 self.advance(self.block_start().len() + endraw);
                 match ws_start {
                     Whitespace::Default if self.ws_config.trim_blocks => {
@@ -758,7 +759,15 @@ impl<'s> Tokenizer<'s> {
                     _ => {}
                 }
                 result = match ws {
-                    Whitespace::Default if self.ws_config.lstrip_blocks => lstrip_block(result),
+                    Whitespace::Default
+                        if should_lstrip_block(
+                            self.ws_config.lstrip_blocks,
+                            StartMarker::Block,
+                            &self.source[..endraw_offset],
+                        ) =>
+                    {
+                        lstrip_block(result)
+                    }
                     Whitespace::Remove => result.trim_end(),
                     _ => result,
                 };
